@@ -57,7 +57,7 @@ def add_rules(rnd, sp, grid_time):
 
 def generate(tier, seed):
     rnd = util.rng(PROPERTY, tier, seed, "cases")
-    n = 150 if tier == "quick" else 5000
+    n = 240 if tier == "quick" else 5000
     cases = []
     for i in range(n):
         sp = c14.gen_spec(rnd)
@@ -106,7 +106,13 @@ def run_case(case):
             else:
                 R = import_sbml(p1)
         except Exception as e:
-            bad("reimport-refused", "the written file could not be read back: %r" % (e,))
+            us = [q for q in sp["params"] if q.startswith("_")]
+            if us and "Unspecified Parameters" in str(e) and all(("%s=nan" % q) in str(e) for q in us):
+                # mechanism: the writer strips the leading underscore from the parameter id but keeps it in laws / annotations
+                bad("leading-underscore-parameter", "model with parameters %r: the written file could not be read back: %s" % (us, str(e)[:160]))
+                viol[-1]["key"] = "C12/leading-underscore-parameter"
+            else:
+                bad("reimport-refused", "the written file could not be read back: %r" % (e,))
             return {"viol": viol, "counters": dict(C), "nontrivial": False}
         C["roundtrips"] += 1
         # 1. species and initial values
